@@ -779,6 +779,10 @@ pub struct DeepCase {
     /// announced count = (chunks sent + delta) mod 65536
     pub count_delta: i32,
     pub automatic: bool,
+    /// instead of complete pages: one uninterrupted run of `n` chunks of `len` bytes whose offsets continue where the
+    /// previous chunk ended (16-bit, wrapping), as a sender numbering a very long item would
+    #[serde(default)]
+    pub in_sequence: Option<(u8, u32)>,
 }
 
 pub fn check_deep(c: &DeepCase, mode: Mode, st: &mut Stats) -> Result<(), String> {
@@ -796,7 +800,16 @@ pub fn check_deep(c: &DeepCase, mode: Mode, st: &mut Stats) -> Result<(), String
     deliver(&mut sign, &mut model, M::Req(addr, O_RECEIVE_PIXELS), true, st)?;
     let size = if model.w > 0 && model.h > 0 { total_len(model.w, model.h) } else { 16 };
     let mut sent: u64 = 0;
-    for p in 0..c.pages {
+    if let Some((len, n)) = c.in_sequence {
+        let mut off: u16 = 0;
+        for k in 0..n {
+            let data: Vec<u8> = (0..len as usize).map(|i| (k as u8).wrapping_add(i as u8)).collect();
+            deliver(&mut sign, &mut model, M::Data { off, data }, k % 1024 == 1023, st).map_err(|e| format!("in-sequence chunk {k} at offset {off}: {e}"))?;
+            off = off.wrapping_add(len as u16);
+            sent += 1;
+        }
+    }
+    for p in 0..if c.in_sequence.is_some() { 0 } else { c.pages } {
         let mut off = 0usize;
         while off < size {
             let n = (size - off).min(16);
@@ -834,15 +847,20 @@ fn run_deep(ctx: &Ctx, mode: Mode) {
         for d in [-1i64, 0, 1, 2] {
             let pages = (base as i64 + d) as u32;
             for count_delta in [0i32, 1] {
-                cases.push(DeepCase { block: b.clone(), pages, count_delta, automatic: d % 2 == 0 });
+                cases.push(DeepCase { block: b.clone(), pages, count_delta, automatic: d % 2 == 0, in_sequence: None });
             }
+        }
+    }
+    for (len, n) in [(16u8, 4097u32), (16, 4200), (255, 258), (255, 300), (17, 3900), (1, 65537), (0, 300)] {
+        for b in [Block::Raw(tiny_block(12, 8)), Block::Real(0)] {
+            cases.push(DeepCase { block: b, pages: 0, count_delta: (len % 2) as i32, automatic: false, in_sequence: Some((len, n)) });
         }
     }
     crate::engine::par_range(ctx, "deep-counter", cases.len() as u64, |i, st| {
         let c = &cases[i as usize];
         check_deep(c, mode, st).map_err(|m| (serde_json::to_value(c).unwrap(), m))
     });
-    ctx.part_done("deep-counter", true, json!({"cases": cases.len(), "what": "pixel transfers of 65536/cpp - 1 .. + 2 complete pages for 1, 2, 3 and 4 chunks per page, announced count right / off by one"}));
+    ctx.part_done("deep-counter", true, json!({"cases": cases.len(), "what": "pixel transfers of 65536/cpp - 1 .. + 2 complete pages for 1, 2, 3 and 4 chunks per page, announced count right / off by one; uninterrupted in-sequence runs whose running offset passes 0xFFFF (16-, 17-, 255-, 1- and 0-byte chunks)"}));
 }
 
 pub fn run(ctx: &Ctx, c13: bool) {
@@ -884,6 +902,10 @@ pub fn run(ctx: &Ctx, c13: bool) {
     run_generated(ctx, "walk", ctx.tier.pick(30_000, 1_000_000), || history_strategy(60), |c, st| check_history(c, mode, st));
     run_generated(ctx, "walk-long", ctx.tier.pick(600, 20_000), || history_strategy(400), |c, st| check_history(c, mode, st));
 
+    crate::engine::with_logging(|| {
+        run_generated(ctx, "walk+logging", ctx.tier.pick(6_000, 200_000), || history_strategy(60), |c, st| check_history(c, mode, st));
+    });
+
     // (c) the same alphabet through a bus of 1..4 signs (C12: returns normally)
     if !c13 {
         run_generated(ctx, "bus-walk", ctx.tier.pick(10_000, 300_000), || bus_history_strategy(60), |c, st| check_bus_history(c, st));
@@ -896,6 +918,10 @@ pub fn replay(part: &str, case: &Value, c13: bool) -> Result<(), String> {
     if part == "bus-walk" {
         let c: BusHistoryCase = serde_json::from_value(case.clone()).map_err(|e| format!("bad case: {e}"))?;
         return check_bus_history(&c, &mut st);
+    }
+    if part == "walk+logging" {
+        let c: HistoryCase = serde_json::from_value(case.clone()).map_err(|e| format!("bad case: {e}"))?;
+        return crate::engine::with_logging(|| check_history(&c, mode, &mut st));
     }
     if part == "deep-counter" {
         let c: DeepCase = serde_json::from_value(case.clone()).map_err(|e| format!("bad case: {e}"))?;
